@@ -53,6 +53,7 @@ type Frame struct {
 	pureRet *[]pureResult
 	unroll      int
 	unrollCount map[*loopInfo]int
+	loopEntry   map[*loopInfo]*State // snapshot of the state at the moment each loop was entered (loopold)
 }
 
 type deferRec struct {
@@ -112,6 +113,12 @@ func (s *State) clone() *State {
 			nf.loopDec = map[*loopInfo]*Term{}
 			for k, v := range f.loopDec {
 				nf.loopDec[k] = v
+			}
+		}
+		if f.loopEntry != nil {
+			nf.loopEntry = map[*loopInfo]*State{}
+			for k, v := range f.loopEntry {
+				nf.loopEntry[k] = v
 			}
 		}
 		if f.unrollCount != nil {
@@ -393,6 +400,24 @@ func (e *Exec) heapGet(s *State, o *Obj) Value {
 		v = e.freshVal(o.Typ, o.Name)
 	}
 	if o.Global != nil {
+		// a package-level array of constants that nothing but init assigns: its literal contents
+		if at, ok := o.Typ.Underlying().(*types.Array); ok && isScalar(at.Elem()) && e.w.globalStable(o.Global) {
+			if vals, ok := e.w.constArrayInit(o.Global); ok {
+				arr := e.c.ZeroOf(SArr(scalarSort(at.Elem())))
+				var keys []int64
+				for k := range vals {
+					keys = append(keys, k)
+				}
+				sort.Slice(keys, func(i, j int) bool { return keys[i] < keys[j] })
+				for _, k := range keys {
+					if cv, ok := e.constVal(vals[k]).(*Term); ok && !(cv.Const && cv.C == 0 && cv.Sort.K == KBV) {
+						arr = e.c.Store(arr, BVConst(uint64(k), 64), cv)
+					}
+				}
+				e.note("package-level constant table " + o.Global.Name() + " has the contents of its initialiser (no function assigns it)")
+				v = arr
+			}
+		}
 		// package-level sentinel errors and function variables with initialisers are non-nil
 		switch x := v.(type) {
 		case *IfaceV:
@@ -943,7 +968,13 @@ func (e *Exec) execInstr(s *State, f *Frame, instr ssa.Instruction) {
 		f.env[in] = e.lookup(s, f, in)
 	case *ssa.Range:
 		x := e.get(f, in.X)
-		f.env[in] = &rangeIter{x: x, pos: BVConst(0, 64), isStr: isString(in.X.Type())}
+		it := &rangeIter{x: x, pos: BVConst(0, 64), isStr: isString(in.X.Type())}
+		if it.isStr {
+			// the iterator position of a string range is a (hidden) cell, so that loops over it can be cut
+			it.obj = e.newObj(fmt.Sprintf("%s#%d:%s.iterpos", f.fn.Name(), f.id, in.Name()), types.Typ[types.Int], false, s.step)
+			s.heap.m[it.obj] = BVConst(0, 64)
+		}
+		f.env[in] = it
 	case *ssa.Next:
 		f.env[in] = e.next(s, f, in)
 	case *ssa.Select:
@@ -981,6 +1012,7 @@ type rangeIter struct {
 	x     Value
 	pos   *Term
 	isStr bool
+	obj   *Obj // string iteration: cell holding the byte position of the next rune
 }
 
 func floatBits(f float64, w int) uint64 {
@@ -1151,6 +1183,10 @@ func (e *Exec) loopEnter(s *State, f *Frame, li *loopInfo, from *ssa.BasicBlock)
 	if s.pure > 0 {
 		panic(unsupported("loop inside pure evaluation of " + f.fn.String()))
 	}
+	if f.loopEntry == nil {
+		f.loopEntry = map[*loopInfo]*State{}
+	}
+	f.loopEntry[li] = e.snapshot(s)
 	key := fmt.Sprintf("%s/loop%d", fnKey(f.fn), li.ordinal)
 	prefix := fmt.Sprintf("loop%d", li.ordinal)
 	if !f.isTop {
@@ -1266,6 +1302,13 @@ func (e *Exec) freshLike(s *State, old Value, t types.Type, hint string) Value {
 		return &SliceV{Base: o.Base, Off: off, Len: l, Cap: cp, Nil: False, Elem: o.Elem}
 	case *PtrV:
 		return o
+	case *StringV:
+		// a string variable reassigned in the loop (typically re-sliced): same bytes, unknown window
+		l := e.c.Fresh(hint+".len", SBV(64))
+		off := e.c.Fresh(hint+".off", SBV(64))
+		s.assume(e.c.ULe(l, BVConst(maxCap, 64)))
+		s.assume(e.c.ULe(off, BVConst(maxCap, 64)))
+		return &StringV{Arr: o.Arr, Off: off, Len: l}
 	case *StructV:
 		st := t.Underlying().(*types.Struct)
 		n := &StructV{}
